@@ -6,7 +6,7 @@ from .. import base, corpus, explore, layout, report, universe
 from . import common
 
 PROP = "C05"
-KINDS = tuple(k for k in layout.ALL_OPS if k not in ("WFF", "WNB", "CD"))  # inline delimited comments are not among the re-layouts the property names
+KINDS = tuple(k for k in layout.ALL_OPS if k not in ("WFF", "WNB", "CD", "PPO", "PGO"))  # inline delimited comments are not among the re-layouts the property names
 _base = {}
 
 
